@@ -387,4 +387,31 @@ v("35f-simple-init-stores-before-check", [(P, "        if not iscoroutinefunctio
 v("35g-map-touches-iter-early", [(P, "        self._check_start(function=func)\n        if num_concurrent < 1:", "        arg_iter = iter(arg_iter)\n        self._check_start(function=func)\n        if num_concurrent < 1:")], {"C09": "any", "C05": "R05.2"})
 v("P-lock-unconditional-store", [(P, "        if not self._locked:\n            self._locked = True\n            log.info(\"%s is locked!\", str(self))\n", "        self._locked = True\n")], {"C09": "ok", "C08": "ok"})
 
+# ---------------------------------------------------------------- C10 / C11
+v("36-generate-name-without-membership-test", [(P, "            name = f\"{base_name}-{i}\"\n            if name not in self._task_groups:\n                return name\n            i += 1", "            name = f\"{base_name}-{i}\"\n            return name")], {"C10": "R10.3"})
+v("36b-generate-name-template-changed", [(P, "        base_name = f\"{prefix}-{coroutine_function.__name__}-group\"", "        base_name = f\"{prefix}_{coroutine_function.__name__}-group\"")], {"C10": "R10.3"})
+v("36c-generate-name-checks-wrong-table", [(P, "            if name not in self._task_groups:\n                return name", "            if name not in self._group_meta_tasks_running:\n                return name")], {"C10": "R10.3"})
+v("37-map-returns-other-name", [(P, "            0,\n            end_callback=end_callback,\n            cancel_callback=cancel_callback,\n        )\n        return group_name", "            0,\n            end_callback=end_callback,\n            cancel_callback=cancel_callback,\n        )\n        return f\"map-{group_name}\"")], {"C10": "any"})
+v("37b-apply-returns-other-name", [(P, "                    cancel_callback=cancel_callback,\n                )\n            )\n        )\n        return group_name\n\n    @staticmethod", "                    cancel_callback=cancel_callback,\n                )\n            )\n        )\n        return str(func.__name__)\n\n    @staticmethod")], {"C10": "R10.2r"})
+v("37c-start_task-default-group", [(P, "        group_reg = self._task_groups.setdefault(\n            group_name, TaskGroupRegister()\n        )", "        group_reg = self._task_groups.setdefault(\n            DEFAULT_TASK_GROUP, TaskGroupRegister()\n        )")], {"C10": "R10.1"})
+v("37d-spawner-passes-no-group", [(P, "                await self._start_task(\n                    coroutine,\n                    group_name=group_name,\n                    end_callback=end_callback,", "                await self._start_task(\n                    coroutine,\n                    end_callback=end_callback,")], {"C10": "any", "C04": "R04.1s"})
+v("37e-start-counter-not-incremented", [(P, "        self._start_calls += 1\n", "")], {"C10": "R10.3"})
+v("37f-get_group_ids-returns-register", [(P, "        ids: Set[int] = set()\n        for name in group_names:\n            try:\n                ids.update(self._task_groups[name])", "        ids: Set[int] = set()\n        for name in group_names:\n            try:\n                ids = self._task_groups[name]")], {"C10": "any"})
+v("37g-task-added-to-two-registers", [(P, "            group_reg.add(task_id)\n", "            group_reg.add(task_id)\n            self._task_groups.setdefault(DEFAULT_TASK_GROUP, TaskGroupRegister()).add(task_id)\n")], {"C10": "R10.1"})
+v("37h-ended-task-leaves-register", [(P, "        self._enough_room.release()\n        log.info(\"Ended", "        for reg in self._task_groups.values():\n            reg.discard(task_id)\n        self._enough_room.release()\n        log.info(\"Ended")], {"C10": "viol"})
+v("38-flush-resets-num_started", [(P, "        for task_id in finished:\n            self._tasks_ended.pop(task_id, None)\n", "        self._num_started = 0\n        for task_id in finished:\n            self._tasks_ended.pop(task_id, None)\n")], {"C11": "R11.1"})
+v("39-task-named-after-increment", [(P, "                name=self._task_name(task_id),\n", "                name=self._task_name(self._num_started),\n")], {"C11": "R11.1"})
+v("39b-id-after-increment", [(P, "            task_id = self._num_started\n            self._num_started += 1\n", "            self._num_started += 1\n            task_id = self._num_started\n")], {"C11": "R11.1"})
+v("39c-increment-before-acquire", [(P, ACQ, "        self._num_started += 1\n" + ACQ), (P, "            task_id = self._num_started\n            self._num_started += 1\n", "            task_id = self._num_started - 1\n")], {"C11": "R11.1"})
+v("39d-task-name-format", [(P, '        return f"{self}_Task-{task_id}"', '        return f"{self}-Task-{task_id}"')], {"C11": "R11.2"})
+v("39e-str-ignores-name", [(P, 'return f"{self.__class__.__name__}-{self._name or self._idx}"', 'return f"{self.__class__.__name__}-{self._idx}"')], {"C11": "R11.2"})
+v("39f-num_started-class-level", [(P, "    _pools: ClassVar[List[BaseTaskPool]] = []\n", "    _pools: ClassVar[List[BaseTaskPool]] = []\n    _num_started: int = 0\n"), (P, "        self._num_started: int = 0  # total number of tasks started\n", "")], {"C11": "viol"})
+v("39g-add_pool-returns-len", [(P, "        return len(cls._pools) - 1\n", "        return len(cls._pools)\n")], {"C11": "any"})
+v("39h-wrapper-gets-other-id", [(P, "                    awaitable, task_id, end_callback, cancel_callback\n", "                    awaitable, self._num_started, end_callback, cancel_callback\n")], {"C11": "R11.1"})
+v("P10-generate-name-percent-format", [(P, "        base_name = f\"{prefix}-{coroutine_function.__name__}-group\"", "        base_name = \"%s-%s-group\" % (prefix, coroutine_function.__name__)"), (P, "            name = f\"{base_name}-{i}\"\n", "            name = \"%s-%d\" % (base_name, i)\n")], {"C10": "ok"})
+for _v in V:
+    if _v["name"] in ("P2-rename-locals", "P6-increment-after-create"):
+        _v["expect"].update({"C10": "ok", "C11": "ok"})
+        _v["props"] = list(_v["expect"])
+
 VARIANTS = V
